@@ -23,6 +23,7 @@ mod c13;
 mod c14;
 mod c15;
 mod c16;
+mod c17;
 
 use util::*;
 
@@ -92,6 +93,7 @@ fn main() {
         "C14" => c14::run(&p, &mut rep),
         "C15" => c15::run(&p, &mut rep),
         "C16" => c16::run(&p, &mut rep),
+        "C17" => c17::run(&p, &mut rep),
         other => {
             eprintln!("no monitor for {}", other);
             std::process::exit(3);
